@@ -8,6 +8,7 @@ import (
 	"os"
 	"runtime"
 	"strings"
+	"sync"
 	"testing"
 	"time"
 	"verif/fold"
@@ -52,6 +53,38 @@ type spec struct {
 	K       int    // rows consumed before close / cancel
 	Yields  int    // scheduler yields before the asynchronous cancel
 	Corrupt int    // which page (mod page count) is overwritten with 0xFF for the "corrupt" plan
+	// ForeignCtx: the query's context is not one of package context's own
+	// types (context.WithCancel then needs a goroutine to watch it, which
+	// lives until the derived context is cancelled)
+	ForeignCtx bool `json:",omitempty"`
+}
+
+// foreignCtx is a context.Context implemented outside package context.
+type foreignCtx struct {
+	done chan struct{}
+	once sync.Once
+}
+
+func newForeignCtx() *foreignCtx                    { return &foreignCtx{done: make(chan struct{})} }
+func (c *foreignCtx) Deadline() (time.Time, bool)   { return time.Time{}, false }
+func (c *foreignCtx) Done() <-chan struct{}         { return c.done }
+func (c *foreignCtx) Value(interface{}) interface{} { return nil }
+func (c *foreignCtx) cancel()                       { c.once.Do(func() { close(c.done) }) }
+func (c *foreignCtx) Err() error {
+	select {
+	case <-c.done:
+		return context.Canceled
+	default:
+		return nil
+	}
+}
+
+// watcherGoroutines counts the goroutines package context runs to watch a
+// foreign parent context.
+func watcherGoroutines() int {
+	buf := make([]byte, 1<<20)
+	n := runtime.Stack(buf, true)
+	return strings.Count(string(buf[:n]), "context.(*cancelCtx).propagateCancel.func")
 }
 
 func TestC19Driver(t *testing.T) {
@@ -70,6 +103,7 @@ func TestC19Driver(t *testing.T) {
 			s.K = rapid.IntRange(0, 12).Draw(t, "k")
 			s.Yields = rapid.IntRange(0, 50).Draw(t, "yields")
 			s.Corrupt = rapid.IntRange(0, 1000).Draw(t, "corrupt")
+			s.ForeignCtx = rapid.IntRange(0, 2).Draw(t, "foreignctx") == 0
 			return s
 		},
 		Run: run,
@@ -269,6 +303,12 @@ func run(r *vt.Run, t vt.TB, s spec) {
 	}
 	ctx, cancel := context.WithCancel(context.Background())
 	defer cancel()
+	watchersBefore := watcherGoroutines()
+	if s.ForeignCtx {
+		fc := newForeignCtx()
+		ctx, cancel = fc, fc.cancel
+		defer cancel()
+	}
 	rows, qerr := db.QueryContext(ctx, query)
 	var got [][]interface{}
 	var surfaced error = qerr
@@ -409,6 +449,22 @@ func run(r *vt.Run, t vt.TB, s spec) {
 		return
 	}
 	// ---- clean up: producer gone, lock released
+	if s.ForeignCtx && !cancelled {
+		// the query is over (failed, or its result set closed) while its
+		// context is still alive: nothing may be left watching that context
+		deadline := time.Now().Add(2 * time.Second)
+		for watcherGoroutines() > watchersBefore {
+			if time.Now().After(deadline) {
+				r.Violation(t, s, "context-watcher-leak", "%s (query error: %v, plan %s): the query is over and its context not cancelled; %d goroutine(s) that watch this context for a derived one (context.WithCancel) are still running", query, qerr, s.Plan, watcherGoroutines()-watchersBefore)
+				return
+			}
+			time.Sleep(2 * time.Millisecond)
+		}
+		r.Count("foreign-context-queries", 1)
+		if qerr != nil {
+			r.Count("foreign-context-failed-queries", 1)
+		}
+	}
 	if !cancelled && qerr == nil {
 		// rows.Close was called by us and has returned: the read is over now,
 		// not some time later (the connection is back in the pool and the
